@@ -24,6 +24,12 @@ pub fn positions(layout: Layout, tier: &str) -> Vec<u64> {
     if layout != Layout::Ietf {
         p.extend_from_slice(&[1 << 38, (1 << 38) + 1, (1 << 40) + 7, 1 << 63, u64::MAX - 256, u64::MAX - 63, u64::MAX]);
     }
+    // every alignment of a 4-block group with the low-counter-word carry (and with the IETF end)
+    for k in 1..=9u64 {
+        p.push((1 << 38) - 64 * k);
+    }
+    p.sort();
+    p.dedup();
     if tier == "thorough" {
         for i in 0..=1100u64 {
             p.push(i);
@@ -46,7 +52,7 @@ pub fn lengths(tier: &str) -> Vec<usize> {
     if tier == "thorough" {
         vec![1, 2, 31, 63, 64, 65, 127, 128, 129, 191, 192, 193, 255, 256, 257, 319, 320, 321, 511, 512, 513, 1031]
     } else {
-        vec![1, 63, 64, 65, 255, 256, 257, 320, 1031]
+        vec![1, 63, 64, 65, 255, 256, 257, 320, 513, 1031]
     }
 }
 
